@@ -455,3 +455,69 @@ def call(fn, *a, **k):
 
 def exc_sig(e: BaseException) -> str:
     return f"{type(e).__name__}"
+
+
+def split_first(task) -> list:
+    """Split one exploration task into independent sub-tasks, one per first deviation, plus the
+    default execution itself (for load balancing; the union is exactly the original task)."""
+    name, params, bound, root = task
+    ch = Chooser(list(root), bound)
+    run_harness(name, params, ch)
+    pts = ch.points
+    chs = ch.choices
+    out = [(name, params, bound, tuple(chs), True)]  # the default execution only
+    cost = 0
+    for i in range(len(root), len(pts)):
+        _l, ar, w, c = pts[i]
+        if ar > 1 and not (bound is not None and cost + w > bound):
+            for alt in range(1, ar):
+                out.append((name, params, bound, tuple(chs[:i] + [alt])))
+        if c:
+            cost += w
+    return out
+
+
+def explore_task_split(task) -> Stats:
+    """Runs a task produced by split_first."""
+    if len(task) == 5:
+        name, params, bound, root, _only = task
+        col = Collector(name, params)
+        ch = Chooser(list(root), bound)
+        col(ch, run_harness(name, params, ch))
+        return col.stats
+    return explore_task(task)
+
+
+def pmap(fn: Callable, items: list, procs: int | None = None) -> list:
+    """Plain parallel map in forked workers (results must be picklable)."""
+    global _WORKER_FN
+    if not items:
+        return []
+    procs = procs or min(int(os.environ.get("VERIF_PROCS", "16")), len(items))
+    if procs <= 1 or os.environ.get("VERIF_SERIAL"):
+        return [fn(x) for x in items]
+    _WORKER_FN = fn
+    ctx = mp.get_context("fork")
+    out = []
+    with ctx.Pool(procs) as pool:
+        for kind, res in pool.imap(_worker_entry, items):
+            if kind != "ok":
+                pool.terminate()
+                raise HarnessError(res)
+            out.append(res)
+    return out
+
+
+def split_deep(task, short: int = 2, rounds: int = 2) -> list:
+    """split_first applied again to sub-tasks whose prefix is still short (their subtrees are
+    as large as the whole tree when the deviating point is free or early)."""
+    tasks = split_first(task)
+    for _ in range(rounds - 1):
+        nxt = []
+        for t in tasks:
+            if len(t) == 4 and len(t[3]) <= short:
+                nxt.extend(split_first(t))
+            else:
+                nxt.append(t)
+        tasks = nxt
+    return tasks
